@@ -289,3 +289,64 @@ impl<K, V> VecMap<K, V> {
         self.buckets.retain(|(k, v), _| f(k, v));
     }
 }
+
+/// Kani harnesses. BOUNDED stand-ins (fixed number of entries, symbolic keys); never counted as proofs.
+#[cfg(feature = "verif_kani")]
+mod verif_kani {
+    use super::*;
+
+    fn put(m: &mut VecMap<u8, u8>, k: u8, v: u8) {
+        m.insert_hashed_unique_unchecked(
+            Hashed::new_unchecked(StarlarkHashValue::new_unchecked(k as u32), k),
+            v,
+        );
+    }
+
+    /// `is_sorted_by_key` answers "keys are in non-decreasing order" for every 3-entry map.
+    #[kani::proof]
+    #[kani::unwind(5)]
+    fn c11_vec_map_is_sorted_by_key_bounded() {
+        let (k0, k1, k2): (u8, u8, u8) = (kani::any(), kani::any(), kani::any());
+        let mut m: VecMap<u8, u8> = VecMap::new();
+        assert!(m.is_sorted_by_key());
+        put(&mut m, k0, 0);
+        assert!(m.is_sorted_by_key());
+        put(&mut m, k1, 1);
+        assert!(m.is_sorted_by_key() == (k0 <= k1));
+        put(&mut m, k2, 2);
+        assert!(m.is_sorted_by_key() == (k0 <= k1 && k1 <= k2));
+        kani::cover!(k0 <= k1 && k1 <= k2);
+        kani::cover!(k0 > k1);
+    }
+
+    /// `sort_keys` leaves the same entries in ascending key order (3 entries with distinct keys).
+    #[kani::proof]
+    #[kani::unwind(8)]
+    fn c11_vec_map_sort_keys_bounded() {
+        let (k0, k1, k2): (u8, u8, u8) = (kani::any(), kani::any(), kani::any());
+        kani::assume(k0 != k1 && k1 != k2 && k0 != k2);
+        let mut m: VecMap<u8, u8> = VecMap::new();
+        // the value records the key it was inserted with
+        put(&mut m, k0, k0 ^ 0x5a);
+        put(&mut m, k1, k1 ^ 0x5a);
+        put(&mut m, k2, k2 ^ 0x5a);
+        m.sort_keys();
+        assert!(m.len() == 3);
+        let lo = k0.min(k1).min(k2);
+        let hi = k0.max(k1).max(k2);
+        let mid = if k0 != lo && k0 != hi {
+            k0
+        } else if k1 != lo && k1 != hi {
+            k1
+        } else {
+            k2
+        };
+        assert!(m.get_index(0) == Some((&lo, &(lo ^ 0x5a))));
+        assert!(m.get_index(1) == Some((&mid, &(mid ^ 0x5a))));
+        assert!(m.get_index(2) == Some((&hi, &(hi ^ 0x5a))));
+        assert!(m.is_sorted_by_key());
+        kani::cover!(k0 < k1 && k1 < k2);
+        kani::cover!(k0 > k1 && k1 > k2);
+        kani::cover!(k1 > k2 && k2 > k0);
+    }
+}
